@@ -73,6 +73,10 @@ func WithGlobalTx(ctx context.Context, gc *GtxConfig, business CallbackWithCtx) 
 			}
 		}
 
+		if deferErr != nil {
+			// a business panic must surface to the caller, never as success
+			re = fmt.Errorf("business panic: %v", deferErr)
+		}
 		if re != nil || err != nil {
 			re = fmt.Errorf("first phase error: %v, second phase error: %v", re, err)
 		}
